@@ -55,4 +55,5 @@ a1887f0 C02
 50b17e8 C12
 c4bdc93 C12
 318b915 C20
+3a4230f C11
 LIST
